@@ -8,16 +8,36 @@ def oracle_parse_total(case, impl):
     return None
 
 
+def oracle_wedge(case, impl):
+    """C02 liveness on the real sockets: every hostile message longer than 14 bytes is answered and the daemon keeps
+    answering well-formed queries afterwards."""
+    import re
+    m = re.match(r"answered=(\d+)/(\d+) after=(\w+)", impl)
+    if not m:
+        return "unexpected harness output: " + impl[:80]
+    a, n, after = int(m.group(1)), int(m.group(2)), m.group(3)
+    f = case.split(" ")
+    if after != "ok":
+        return ("after a burst of %d hostile %s messages (max-inflight-requests=%s) the proxy no longer answers well-formed queries "
+                "(%d/%d of the burst were answered)" % (len(f[3].split(",")), f[2], f[1], a, n))
+    if a != n:
+        return "%d of %d hostile %s messages longer than 14 bytes got no reply (max-inflight-requests=%s)" % (n - a, n, f[2], f[1])
+    return None
+
+
 SPEC = dict(
         lean_module="NV.Props.C02",
         level_text="Termination of query.parse and of every dnsmessage loop it reaches is proved for all byte strings (fuel bound / "
                    "Lean termination checker); the handler model always emits a reply; the model is tied to the real parser by a "
-                   "differential run over structured and malformed messages with a per-input deadline (hang/panic oracle).",
+                   "differential run over structured and malformed messages with a per-input deadline (hang/panic oracle). Bursts of hostile "
+                   "messages (3K..5K of them, capacity K=2..4) are sent to the real UDP/TCP sockets: each must be answered and the proxy must "
+                   "keep answering well-formed queries; the capacity certificate of the handlers (every path returns its unit) is an obligation here too.",
         level_note="Trusted: Lean kernel; the correspondence harness and generator. Slice-bounds panics inside dnsmessage are excluded by the "
                    "differential run (PANIC output), not by a theorem; goroutine scheduling is observed, not modelled.",
         areas=[dict(name="parse", n_quick=20000, n_thorough=400000, shards_thorough=8,
                     oracle=oracle_parse_total,
-                    nontrivial=lambda c, i: not i.startswith("query "))],
+                    nontrivial=lambda c, i: not i.startswith("query ")),
+               dict(name="wedge", n_quick=8, n_thorough=120, shards_thorough=8, oracle=oracle_wedge, timeout=900)],
         trusted=COMMON_TRUST + ["Go runtime: recover/defer, goroutine scheduling (deadline used as hang oracle)"],
-        assumptions=["socket layer and goroutine scheduling are not modelled; liveness of the daemon after hostile input is observed through the C01 socket harness"],
+        assumptions=["socket layer and goroutine scheduling are not modelled; liveness of the daemon after hostile input is observed by the wedge area (real sockets)"],
 )
